@@ -2,5 +2,5 @@
 
 package ecs
 
-func vFillMask(m *bitMask, l string) { m.bits = vU64(l) }
+func vFillMask(m *bitMask, l string)  { m.bits = vU64(l) }
 func vMaskWords(m *bitMask) [4]uint64 { return [4]uint64{m.bits, 0, 0, 0} }
